@@ -62,15 +62,29 @@ def _reader_cases(fmt, pattern, crlf, final_nl, ks=None):
     return out
 
 
+# identifier columns of very different widths (a wide name early, short rows late: the padded-matrix extraction of an
+# identifier column reads max-width windows that reach past short fields, also at the end of a chunk)
+_CHR = [b'chrUn_KI270302v1_random', b'c', b'chr10', b'x', b'chr1_alt_long_contig_name']
+_NAM = [b'a_rather_long_feature_name_%d', b'n%d', b'p%d', b'%d']
+
+
+def _chr(i):
+    return _CHR[i % len(_CHR)]
+
+
+def _nam(i):
+    return _NAM[i % len(_NAM)] % i
+
+
 E2E = {
-    'bed': lambda i: b'chr%d\t%d\t%d\tn%d\t%d\t%s\n' % (1 + i // 2, 10 * i, 10 * i + 5 + i, i, i, b'+-'[i % 2:i % 2 + 1]),
-    'bdg': lambda i: b'chr1\t%d\t%d\t%d.5\n' % (5 * i, 5 * i + 5, i),
-    'narrowPeak': lambda i: b'chr1\t%d\t%d\tp%d\t%d\t.\t1.5\t2.5\t3.5\t%d\n' % (10 * i, 10 * i + 8, i, i, i + 1),
-    'vcf': lambda i: b'chr1\t%d\t.\tA\t%s\t.\t.\t.\n' % (10 + i, [b'T', b'TG', b'C'][i % 3]),
-    'sam': lambda i: b'r%d\t%d\tchr1\t%d\t60\t4M\t*\t0\t0\tACGT\t!!!!%s\n' % (i, 16 * (i % 2), 5 + i, b'\tNM:i:0' if i % 2 else b''),
-    'gtf': lambda i: b'chr1\tsrc\tgene\t%d\t%d\t.\t+\t.\tgene_id "g%d";\n' % (1 + 10 * i, 9 + 10 * i, i),
-    'fq': lambda i: b'@r%d\n%s\n+\n%s\n' % (i, b'ACGTA'[:1 + i % 5], b'!!!!!'[:1 + i % 5]),
-    'fa': lambda i: b'>s%d\n' % i + b''.join(b'ACGTACGTACG'[:2 + 3 * (i % 4)][j:j + 4] + b'\n' for j in range(0, 2 + 3 * (i % 4), 4)),
+    'bed': lambda i: b'%s\t%d\t%d\t%s\t%d\t%s\n' % (_chr(i), 10 * i, 10 * i + 5 + i, _nam(i), i, b'+-'[i % 2:i % 2 + 1]),
+    'bdg': lambda i: b'%s\t%d\t%d\t%d.5\n' % (_chr(i), 5 * i, 5 * i + 5, i),
+    'narrowPeak': lambda i: b'%s\t%d\t%d\t%s\t%d\t.\t1.5\t2.5\t3.5\t%d\n' % (_chr(i), 10 * i, 10 * i + 8, _nam(i), i, i + 1),
+    'vcf': lambda i: b'%s\t%d\t%s\tA\t%s\t.\t.\t.\n' % (_chr(i), 10 + i, [b'.', b'rs1234567890', b'r'][i % 3], [b'T', b'TGGGGGGGGGG', b'C'][i % 3]),
+    'sam': lambda i: b'%s\t%d\t%s\t%d\t60\t4M\t*\t0\t0\tACGT\t!!!!%s\n' % (_nam(i), 16 * (i % 2), _chr(i), 5 + i, b'\tNM:i:0' if i % 2 else b''),
+    'gtf': lambda i: b'%s\t%s\t%s\t%d\t%d\t.\t+\t.\tgene_id "g%d";\n' % (_chr(i), [b'src', b's'][i % 2], [b'gene', b'five_prime_UTR', b'CDS'][i % 3], 1 + 10 * i, 9 + 10 * i, i),
+    'fq': lambda i: b'@%s\n%s\n+\n%s\n' % ([b'r%d', b'a_long_read_name_%d/1'][i % 2] % i, b'ACGTA'[:1 + i % 5], b'!!!!!'[:1 + i % 5]),
+    'fa': lambda i: b'>%s\n' % ([b's%d', b'sequence_with_long_name_%d'][i % 2] % i) + b''.join(b'ACGTACGTACG'[:2 + 3 * (i % 4)][j:j + 4] + b'\n' for j in range(0, 2 + 3 * (i % 4), 4)),
 }
 E2E_HEADER = {'vcf': b'##fileformat=VCFv4.2\n#CHROM\tPOS\tID\tREF\tALT\tQUAL\tFILTER\tINFO\n',
               'sam': b'@HD\tVN:1.0\n@SQ\tSN:chr1\tLN:1000\n'}
